@@ -113,11 +113,16 @@ def members_and_restores(ctx, n):
         # (1)
         w = hist.World(ctx, 8700 + i, rng, max_groups=2, max_per_group=4, nitems=1)
         try:
-            for k in range(3):
-                w.write(os.path.join(w.items[0], 'f%d' % k), 800 + i * 10 + k, rng.choice([30, 5000, 20000]))
+            bigman = i == 0     # variant: a long manifest that lost its tail (its first compressed blocks still decode)
+            for k in range(2500 if bigman else 3):
+                w.write(os.path.join(w.items[0], 'f%d' % k), 800 + i * 10 + k if not bigman else 100000 + k, 40 if bigman else rng.choice([30, 5000, 20000]))
             assert w.backup(advance=5).rc == 0
             g1, b1 = store.group_name(w.now), store.backup_name(w.now)
-            if i % 3 == 2:
+            if bigman:
+                mp = os.path.join(w.root, g1, b1, 'metadata.zst')
+                with open(mp, 'r+b') as f:
+                    f.truncate(os.path.getsize(mp) * 6 // 10)
+            elif i % 3 == 2:
                 # variant: the backup that alone records some content was never published - it is an abandoned temporary
                 # (`.name`) with a readable manifest: it is no member of the group
                 w.write(os.path.join(w.items[0], 'only-there'), 850 + i, 9000)
@@ -132,6 +137,8 @@ def members_and_restores(ctx, n):
                 for k in range(3):
                     w.fresh_mtime(os.path.join(w.items[0], 'f%d' % k))
             r = w.backup(advance=60)
+            if bigman and r.rc == 0 and not r.errors():
+                ctx.violation('property', 'a backup of the group has an undecodable manifest and the run appending to the group reports nothing', {'case': {'scenario': 'manifest-lost-its-tail'}})
             b2dir = os.path.join(w.root, g1, store.backup_name(w.now))
             case = {'scenario': 'member-without-data', 'index': i, 'touched': bool(i % 2), 'rc': r.rc}
             if os.path.isdir(b2dir):
@@ -156,7 +163,8 @@ def members_and_restores(ctx, n):
                                 stored.add(rec['hash'])
                         elif rec['size'] > 0 and rec['hash'] not in stored and bd == b2dir:
                             ctx.violation('property', 'extern record %s of the new backup refers to content that no earlier backup of the group stores '
-                                          '(the only backup recording it as unique has no data archive)' % rec['path'], {'case': case})
+                                          '(the only backup recording it as unique has no data archive, or its manifest does not decode)' % rec['path'], {'case': case})
+                            break
             done += 1
         finally:
             w.cleanup()
@@ -169,6 +177,12 @@ def members_and_restores(ctx, n):
             for k in range(rng.randint(3, 4)):
                 if k == 1:
                     os.rename(os.path.join(w.items[0], 'moves'), os.path.join(w.items[0], 'moved-to'))
+                    # two more paths with the bytes of `stays`: later backups hold several extern records of one hash whose
+                    # bytes live in the first backup
+                    os.makedirs(os.path.join(w.items[0], 'copies'), exist_ok=True)
+                    for cn in ('copies/stays-copy', 'stays-too'):
+                        shutil.copyfile(os.path.join(w.items[0], 'stays'), os.path.join(w.items[0], cn))
+                        w.fresh_mtime(os.path.join(w.items[0], cn))
                 w.write(os.path.join(w.items[0], 'new%d' % k), 1000 + i * 10 + k, 100)
                 assert w.backup(advance=30).rc == 0
                 names.append((store.group_name(w.now), store.backup_name(w.now)))
